@@ -250,6 +250,11 @@ class Schema:
         vis.append(n)
         return vis
 
+    def declarers(self, sup, attr):
+        """entities whose attribute `attr` a redeclaration SELF\\sup.attr can mean: sup or its supertypes that declare it"""
+        return [m for m in self.inherit_order(sup)
+                if any(a["name"].lower() == attr.lower() and not a["redecl"] for a in self.Ent(m)["attrs"])]
+
     def p21_order(self, n):
         """(owner, attribute) of the value positions of an instance of n, ISO 10303-21 11.2.5.2"""
         out = []
@@ -458,7 +463,13 @@ class Gen:
             for m in (s2 for s2 in self._anc(s, sup)):
                 inherited |= {a["name"] for a in s.Ent(m)["attrs"]}
             for _ in range(r.randint(0, 4)):
-                an = self.ident(kw if r.random() < 0.3 else None)
+                unrelated = [a["name"] for x in s.entities if x["name"] not in self._anc(s, sup) for a in x["attrs"]
+                             if a["kind"] == "E" and not a["redecl"] and a["name"] not in inherited and a["name"] not in anames]
+                if unrelated and K.get("shared_attr_names", True) and r.random() < 0.15:
+                    an = r.choice(unrelated)        # the same attribute name in another line of the hierarchy
+                    s.tags.add("attr-name-in-two-lines")
+                else:
+                    an = self.ident(kw if r.random() < 0.3 else None)
                 anames.add(an)
                 e["attrs"].append(dict(name=an, redecl=None, kind="E", opt=r.random() < 0.3, type=attr_type(), inv=None))
             # derived attribute
